@@ -792,6 +792,15 @@ func dsTxHistory(c *CaseCtx, kind string, class string) {
 		g.M = run.M
 		run.CheckObs("after-commit")
 		run.Tx(g.ReadTx(6), false)
+		if r.Intn(5) == 0 {
+			// the same kind of operation in a transaction that does not commit (fn error, Rollback, or a read-only
+			// transaction, where every mutator must be refused): the structure must be exactly as before
+			t2 := g.WriteTx(true)
+			t2.Mode = []string{"fnerr", "rollback", "view"}[r.Intn(3)]
+			run.Tx(t2, false)
+			c.Stat("noncommitting_transactions", 1)
+			run.CheckObs("after-noncommitting-" + t2.Mode)
+		}
 		if kind == "zset" {
 			run.CheckStruct("after-commit")
 		}
